@@ -91,7 +91,7 @@ def initial_mxcsr(rc=0, prefix='init_'):
     return z3.simplify(z3.Concat(z3.BitVecVal(0, 16), ftz, z3.BitVecVal(rc, 2), z3.BitVecVal(0x3f, 6), dazb, status))
 
 
-def orc_entry_state(prog, solver, n_max, n_min=0, m_max=2, rc=0, symbolic_index=(), constrain_alignment=True):
+def orc_entry_state(prog, solver, n_max, n_min=0, m_max=2, rc=0, symbolic_index=(), constrain_alignment=True, m_min=1):
     """Build the standard entry state for one compiled program.
 
     prog      JSON dict from `orcdump compile` (uses prog_vars and orccode.is_2d / constant_n)
@@ -126,7 +126,7 @@ def orc_entry_state(prog, solver, n_max, n_min=0, m_max=2, rc=0, symbolic_index=
             m_max = cm
             asm += [mm_ == cm]
         else:
-            asm += [mm_ >= 1, mm_ <= m_max]
+            asm += [mm_ >= m_min, mm_ <= m_max]
     es.rows = m_max if is2d else 1
     for v in prog.get('prog_vars', []):
         i, name, vt, size = v['i'], v['name'], VARTYPE.get(v['vartype']), v['size']
